@@ -3,6 +3,7 @@
 //! Lean driver) and `<stream>.impl.jsonl` (the implementation's outcomes).
 mod common;
 mod jsonio;
+mod s_engine;
 mod s_expr;
 
 use std::env;
@@ -18,6 +19,7 @@ fn main() {
     std::panic::set_hook(Box::new(|_| {}));
     match args[1].as_str() {
         "expr" => s_expr::run(&opts),
+        "engine" => s_engine::run(&opts),
         other => {
             eprintln!("unknown stream {other}");
             std::process::exit(2);
